@@ -15,7 +15,7 @@
    the cycle space, and "in_ring <-> lies on a cycle" (search against a bridge finder). *)
 From Coq Require Import ZArith List Bool Permutation.
 From Model Require Import PyBase Graph Rings.
-From Proofs Require Import RingsProofs RingsMcb.
+From Proofs Require Import RingsProofs RingsMcb RingsRank.
 Import ListNotations.
 Open Scope Z_scope.
 
@@ -90,6 +90,46 @@ Theorem C06_mcb_ref_is_basis_partial : forall g, gwf g -> Z.of_nat (length (mcb_
 Proof. exact mcb_ref_is_basis_partial. Qed.
 Print Assumptions C06_mcb_ref_is_basis_partial.
 
+(* ---- (S) rank: a Steinitz exchange theorem obtained from the verified elimination, and what it gives for mcb_ref ---- *)
+
+(* linearly independent vectors that all are GF(2) combinations of the vectors gs are at most |gs| many *)
+Theorem C06_steinitz : forall gs ts, (forall t, In t ts -> span gs t) -> ~ dependent ts -> (length ts <= length gs)%nat.
+Proof. exact steinitz. Qed.
+Print Assumptions C06_steinitz.
+
+(* the boolean test and the definition of linear (in)dependence agree *)
+Theorem C06_independent_b_iff : forall vs, independent_b vs = true <-> ~ dependent vs.
+Proof. exact independent_b_iff. Qed.
+Print Assumptions C06_independent_b_iff.
+
+(* greedy selection on ANY candidate list sorted by size: minimum total size among all independent families of the same
+   cardinality drawn from the list (the matroid greedy theorem for GF(2) vectors) *)
+Theorem C06_greedy_min_weight : forall g cands need T,
+  Sorted.StronglySorted (fun a b : ring => (length a <= length b)%nat) cands ->
+  incl T cands -> ~ dependent (map (ring_vec g) T) ->
+  length T = length (greedy g [] cands need) ->
+  total_size (greedy g [] cands need) <= total_size T.
+Proof. exact greedy_min_weight. Qed.
+Print Assumptions C06_greedy_min_weight.
+
+(* minimality of mcb_ref, PARTIAL: its total size is minimum among all linearly independent families with as many rings
+   whose members are (up to spelling) Horton candidates.  Missing for "mcb_ref is a MINIMUM cycle basis": Horton's theorem
+   that some minimum cycle basis consists of candidates only (and that the candidates span the cycle space). *)
+Theorem C06_mcb_ref_min_among_candidates_partial : forall g T,
+  (forall t, In t T -> exists c, In c (horton_candidates g) /\ same_cycle g t c) ->
+  ~ dependent (map (ring_vec g) T) -> length T = length (mcb_ref g) ->
+  total_size (mcb_ref g) <= total_size T.
+Proof. exact mcb_ref_min_among_candidate_cycles. Qed.
+Print Assumptions C06_mcb_ref_min_among_candidates_partial.
+
+(* non-vacuity: six independent Horton candidates of the dense cage with total size 28; mcb_ref has 21 *)
+Theorem C06_min_weight_example :
+  let T := [[7;3;1;4;5]; [3;1;4;6;2]; [1;2;6;7;3]; [1;2;5;7;3]; [7;5;4;6]; [5;2;1;3]] in
+  incl T (horton_candidates cage_7_12) /\ ~ dependent (map (ring_vec cage_7_12) T) /\ length T = length (mcb_ref cage_7_12) /\
+  total_size (mcb_ref cage_7_12) = 21 /\ total_size T = 28.
+Proof. exact ex_min_weight. Qed.
+Print Assumptions C06_min_weight_example.
+
 (* the incidence vectors lose nothing: every bond of a cycle of g is one of the listed bonds of g *)
 Theorem C06_ring_edges_in_graph : forall g r, gwf g -> is_cycle g r ->
   forall p, In p (ring_pairs r) -> In (norm_edge p) (edges g).
@@ -135,6 +175,19 @@ Theorem C06_rings_count_cyclomatic : forall g order, gwf g ->
     Z.of_nat (length (edges g)) - Z.of_nat (length g) + Z.of_nat (length (components_order g order)).
 Proof. exact rings_count_cyclomatic. Qed.
 Print Assumptions C06_rings_count_cyclomatic.
+
+(* the number of components, hence rings_count, does NOT depend on the order in which set.pop() hands out the atoms
+   (CPython's set iteration order is not modelled: this theorem is why it need not be) *)
+Theorem C06_components_count_order_independent : forall g o1 o2, gwf g ->
+  (forall x, In x o1 <-> In x (keys g)) -> (forall x, In x o2 <-> In x (keys g)) ->
+  length (components_order g o1) = length (components_order g o2).
+Proof. exact components_count_order_independent. Qed.
+Print Assumptions C06_components_count_order_independent.
+
+Theorem C06_rings_count_order_independent : forall g order, gwf g -> (forall x, In x order <-> In x (keys g)) ->
+  rings_count_order g order = cyclomatic g.
+Proof. exact rings_count_order_independent. Qed.
+Print Assumptions C06_rings_count_order_independent.
 
 Theorem C06_rings_count_ok : forall g, gwf g -> rings_count g = Ok (cyclomatic g).
 Proof. exact rings_count_ok. Qed.
